@@ -30,7 +30,7 @@ import (
 
 // Case is one replayable case: one file and the passwords tried on it.
 type Case struct {
-	Space   string   `json:"space"`   // "passwords" | "permissions"
+	Space   string   `json:"space"`   // "passwords" | "permissions" | "long-passwords" | "lengths"
 	Version string   `json:"version"` // "1.4"
 	User    string   `json:"user"`
 	Owner   string   `json:"owner"`
@@ -40,6 +40,11 @@ type Case struct {
 	Tries   []string `json:"tries"`           // passwords tried (an open without options is always added)
 	Failing string   `json:"failing_try"`     // informational
 	R       int      `json:"revision_chosen"` // informational
+
+	// space "lengths" only: one unfiltered stream and one string per length of lengthFamily(LengthsTop)
+	LengthsTop int   `json:"lengths_top,omitempty"`
+	WriteChunk int   `json:"write_chunk,omitempty"` // size of the pieces the stream bodies are written in (0 = one Write)
+	ReadChunks []int `json:"read_chunks,omitempty"` // buffer sizes every stream is read with (0 = io.ReadAll)
 }
 
 type failure struct {
@@ -73,16 +78,16 @@ func passwords(thorough bool) []string {
 	if thorough {
 		pi = append(pi,
 			"a ",
-			"a\u00a0",               // no-break space: SASLprep -> "a "; not in PDFDocEncoding (0xA0 is Euro)
-			"\ufb01",                // fi ligature: PDFDocEncoding 0x93, NFKC -> "fi"
+			"a\u00a0", // no-break space: SASLprep -> "a "; not in PDFDocEncoding (0xA0 is Euro)
+			"\ufb01",  // fi ligature: PDFDocEncoding 0x93, NFKC -> "fi"
 			"fi",
-			"A\u030a",               // A + combining ring: NFKC -> U+00C5
-			"\u00c5",                // A-ring
+			"A\u030a",                // A + combining ring: NFKC -> U+00C5
+			"\u00c5",                 // A-ring
 			asciiBase[:126]+"\u00e4", // byte 127 is the first half of a 2-byte character
 			asciiBase[:126]+"\u00e3", // same first 127 bytes as the previous one
-			"\u0627\u0628",          // right-to-left only
-			"a\u0627",               // violates the bidi rule of SASLprep
-			"\u20ac",                // Euro: PDFDocEncoding 0xA0
+			"\u0627\u0628",           // right-to-left only
+			"a\u0627",                // violates the bidi rule of SASLprep
+			"\u20ac",                 // Euro: PDFDocEncoding 0xA0
 			asciiBase[:31]+"\u0141",  // 32 bytes of PDFDocEncoding, 33 of UTF-8
 		)
 	}
@@ -136,7 +141,7 @@ func theGraph() *graph {
 			pdf.Array{pdf.String("string in array ()\\\x00\xff"), pdf.Array{pdf.String("nested"), pdf.Integer(7)},
 				pdf.Dict{"K": pdf.String("dict in array")}, pdf.String(""), pdf.Name("N")},
 			pdf.Dict{"S": pdf.String("string in dict"), "D": pdf.Dict{"S2": pdf.String("nested dict string")},
-				"A": pdf.Array{pdf.String("array in dict"), pdf.Name("X"), pdf.Real(1.5)},
+				"A":   pdf.Array{pdf.String("array in dict"), pdf.Name("X"), pdf.Real(1.5)},
 				"B15": pdf.String("123456789012345"), "B16": pdf.String("1234567890123456"), "B17": pdf.String("12345678901234567"),
 				"Bin": pdf.String(all)},
 			pdf.String("top-level string"),
@@ -365,6 +370,18 @@ func prepare(pw string, rev int) prep {
 	return prep{}
 }
 
+// firstDiff returns the index of the first byte in which a and b differ
+// (the length of the shorter one if it is a prefix of the other).
+func firstDiff(a, b []byte) int {
+	n := min(len(a), len(b))
+	for i := 0; i < n; i++ {
+		if a[i] != b[i] {
+			return i
+		}
+	}
+	return n
+}
+
 func (p prep) eq(q prep) bool { return p.ok && q.ok && bytes.Equal(p.b, q.b) }
 
 func isAuthErr(err error) bool {
@@ -516,6 +533,14 @@ func (rn *runner) checkFile(c *Case) []failure {
 			kind := "unpreparable"
 			if pt.ok {
 				kind = "differs-after-preparation"
+				// how late is the first difference from the nearer of the file's passwords?
+				bound := 32
+				if wr.R >= 5 {
+					bound = 127
+				}
+				if max(firstDiff(pt.b, pu.b), firstDiff(pt.b, po.b)) >= bound-4 {
+					kind += ":only-in-last-4-bytes-before-truncation-bound"
+				}
 			}
 			fail(fmt.Sprintf("wrong-password-accepted:R%d:%s", wr.R, kind), "the password is neither the user nor the owner password after preparation, but the file opens")
 		case mustFail:
@@ -634,7 +659,12 @@ func bitsSet(p pdf.Perm) int {
 }
 
 func (rn *runner) one(c Case) {
-	fs := rn.checkFile(&c)
+	var fs []failure
+	if c.Space == "lengths" {
+		fs = rn.checkLengths(&c)
+	} else {
+		fs = rn.checkFile(&c)
+	}
 	for _, f := range fs {
 		cc := c
 		cc.Failing = fmt.Sprintf("%q", f.try)
@@ -645,6 +675,10 @@ func (rn *runner) one(c Case) {
 func selfTest(r *ev.Run) bool {
 	if err := stdsec.SelfTest(); err != nil {
 		r.Infra("ref/stdsec self-test: " + err.Error())
+		return false
+	}
+	if err := boundaryCharsSelfTest(); err != nil {
+		r.Infra(err.Error())
 		return false
 	}
 	// closure: idempotent, monotone, and exactly the three implications
@@ -675,7 +709,7 @@ func Run(tier string) int {
 	}
 	r := ev.New("C09", tier, "exploration", budget)
 	rn := &runner{r: r, g: theGraph()}
-	r.Rule("a case is one file (version, user password, owner password, permissions, metadata mode, HumanReadable) written by the Writer and one password it is opened with by the Reader; evaluations count writes and opens; distinct = distinct (version, metadata mode, permissions, HumanReadable, prepared user password, prepared owner password, prepared try-password or 'unpreparable') tuples of encrypted files, i.e. passwords that the standard's preparation identifies count once")
+	r.Rule("a case is one file (version, user password, owner password, permissions, metadata mode, HumanReadable) written by the Writer and one password it is opened with by the Reader; in the length space a case is one (cipher, write piece size, password role, length, read buffer size) stream read or (cipher, role, length) string read; evaluations count writes, opens and, in the length space, stream and string reads; distinct = the length-space cases, plus distinct (version, metadata mode, permissions, HumanReadable, prepared user password, prepared owner password, prepared try-password or 'unpreparable') tuples of encrypted files, i.e. passwords that the standard's preparation identifies count once")
 	r.Assume("password preparation, permission closure and expected open/fail decision come from ref/stdsec and this package (written from ISO 32000 and RFC 4013, self-tested at start); SASLprep: unassigned code points of Unicode 3.2 not checked, NFKC of the current Unicode version",
 		"passwords with a code point at an 'undefined' PDFDocEncoding position (here: U+00AD) are a grey zone for revisions <= 4: only the same string is required to open the file, a try with such a password must fail with any error",
 		"a missing owner password means the file has no password but the user password",
@@ -734,6 +768,67 @@ func Run(tier string) int {
 	}
 	r.Dim("files_password_space", nA)
 	r.Dim("files_permission_space", len(jobs)-nA)
+	nB := len(jobs)
+
+	// (c) passwords around the truncation bound of the preparation (32 and
+	// 127): a character of 1..4 bytes of UTF-8 cut at every position, in the
+	// role of user password, owner password and only password (thorough: all
+	// pairs), every version, tried with every neighbour (families.go)
+	longTries := 0
+	for _, b := range truncationBounds {
+		files, tries := boundaryPasswords(b)
+		tries = append(tries, "a", "ab")
+		longTries = len(tries) + 1
+		r.Dim(fmt.Sprintf("long_passwords_bound_%d", b), len(files))
+		var pairs [][2]string
+		for _, p := range files {
+			pairs = append(pairs, [2]string{p, "ab"}, [2]string{"a", p}, [2]string{p, ""})
+		}
+		if r.Thorough() {
+			for _, p := range files {
+				for _, q := range files {
+					pairs = append(pairs, [2]string{p, q})
+				}
+			}
+		}
+		for _, v := range versions {
+			vs, _ := v.ToString()
+			for _, pr := range pairs {
+				jobs = append(jobs, Case{Space: "long-passwords", Version: vs, User: pr[0], Owner: pr[1], Perm: int(pdf.PermCopy | pdf.PermForms), Meta: "none", Tries: tries})
+			}
+		}
+	}
+	r.Dim("long_password_truncation_bounds", truncationBounds)
+	r.Dim("long_password_character_widths", []int{1, 2, 3, 4})
+	r.Dim("long_password_rule", "ASCII[:bound-j] + character of w bytes, w=1..4, j=0..w bytes of it before the bound; tries: every such password, its ASCII prefix, prefix + a character differing first at byte k (k=1..w), password + one byte")
+	r.Dim("tries_per_file_long_password_space", longTries)
+	r.Dim("files_long_password_space", len(jobs)-nB)
+
+	// (d) stream and string lengths around the cipher block size and around
+	// multiples of 512, per version x write chunking (x HumanReadable thorough)
+	lp := lengthParamsFor(r.Thorough())
+	lengthsTop := lp.lengths[len(lp.lengths)-1] - 17
+	var ljobs []Case
+	for _, v := range versions {
+		vs, _ := v.ToString()
+		for _, human := range pwHuman {
+			for _, wc := range lp.writeChunks {
+				ljobs = append(ljobs, Case{Space: "lengths", Version: vs, User: "a", Owner: "ab", Perm: int(pdf.PermCopy | pdf.PermForms), Meta: "none", Human: human,
+					LengthsTop: lengthsTop, WriteChunk: wc, ReadChunks: lp.readChunks})
+			}
+		}
+	}
+	r.Dim("length_family", fmt.Sprintf("every length 0..80 and m-17..m+17 for every multiple m of 512 up to %d: %d lengths, one unfiltered stream and one string each", lengthsTop, len(lp.lengths)))
+	r.Dim("lengths", len(lp.lengths))
+	r.Dim("length_write_piece_sizes", lp.writeChunks)
+	r.Dim("length_read_buffer_sizes", lp.readChunks)
+	r.Dim("files_length_space", len(ljobs))
+	r.Par(len(ljobs), func(k int) {
+		if r.Expired() || r.TooManyViolations() {
+			return
+		}
+		rn.one(ljobs[k])
+	})
 
 	// expensive (revision 6) files are spread evenly over the workers by
 	// visiting the jobs in a strided order
@@ -757,6 +852,9 @@ func Run(tier string) int {
 	r.Sample(jobs[nA/2+7])
 	r.Sample(jobs[nA-3])
 	r.Sample(jobs[nA+200])
+	r.Sample(jobs[len(jobs)-2])
+	lj := ljobs[len(ljobs)-2]
+	r.Sample(lj)
 	return r.Finish()
 }
 
